@@ -439,6 +439,14 @@ def ecdhesDerive (P : Prims) (name : String) (kw : Option String) (dklFix : Opti
   (concatKdf P z dkl algId pu pv).map fun dk =>
     .obj [("kty", .str "oct"), ("alg", .str enc), ("k", B64.enc dk)]
 
+/-- `shared_hdr_has(jwe, name)` (lib/openssl/misc.c): the parameter is set in the protected or shared unprotected header
+    (or that header cannot be determined) — it would take precedence over the value a wrapping algorithm generates
+    and records in the per-recipient header -/
+def sharedHdrHas (jwe : Json) (name : String) : Bool :=
+  match jweHdr jwe none with
+  | none => true
+  | some h => (h.get? name).isSome
+
 /-- `wrap.wrp` per family.  Returns the JWE with the recipient added and the (possibly
     generated / derived) CEK.  `rnd` supplies, in order of use, the randomness consumed. -/
 def wrp (P : Prims) : Nat → String → Json → Json → Json → Json → Bs → Option (Json × Json)
@@ -468,6 +476,7 @@ def wrp (P : Prims) : Nat → String → Json → Json → Json → Json → Bs 
       (P.kwWrap kek pt).bind fun ct =>
         (addEntity jwe (some (.obj (setKV "encrypted_key" (B64.enc ct) rkvs))) "recipients" RCPKEYS).map (·, cek')
     | some (.gcmkw klen), .obj rkvs =>
+      if sharedHdrHas jwe "iv" || sharedHdrHas jwe "tag" then none else
       (genCek cek rnd).bind fun (cek', rnd') =>
       (bytesOfJson (cek'.get? "k")).bind fun pt =>
       (exactKey jwk "k" klen).bind fun kek =>
@@ -489,6 +498,7 @@ def wrp (P : Prims) : Nat → String → Json → Json → Json → Json → Bs 
         | none => genCek cek rnd
       cekO.bind fun (cek', rnd') =>
       (jweHdr jwe (some rcp)).bind fun hdr =>
+      if sharedHdrHas jwe "epk" then none else
       let hO : Option (List (String × Json)) :=
         match lookup "header" rkvs with
         | none => some []
@@ -531,6 +541,7 @@ def wrp (P : Prims) : Nat → String → Json → Json → Json → Json → Bs 
        | _, _ => none)
     | some (.pbes2 h aes klen), .obj rkvs =>
       (genCek cek rnd).bind fun (cek', rnd') =>
+      if sharedHdrHas jwe "p2s" then none else
       let st := rnd'.take klen
       let hkvO : Option (List (String × Json)) :=
         match lookup "header" rkvs with
